@@ -1,12 +1,305 @@
-// Package c12 decides C12 (see /verif/DESIGN.md §7).
+// Package c12 decides C12: wire encodings round-trip, hashes are stable, decoders are total
+// (see /verif/DESIGN.md §7).
+//
+// Files: spec.go (harness-side description of every wire value, equality modulo nil/empty),
+// ref.go (hand-written protobuf/hash reference), gen.go (keys, structural generators),
+// paths.go + roundtrip.go (clause a), golden.go (clause b), mutate.go + total.go (clause c,
+// child processes), commit.go (clause d), finding.go (trigger region C12-address-without-key).
 package c12
 
-import "verifharness/vk"
+import (
+	"bytes"
+	"context"
+	"encoding/hex"
+	"encoding/json"
+	"fmt"
+	"os"
+	"os/exec"
+	"path/filepath"
+	"sort"
+	"strconv"
+	"sync"
+	"time"
+
+	"verifharness/vk"
+	"verifharness/world"
+)
 
 // Level is the verification level claimed for this property.
 const Level = "exploration"
 
 // Run is the check entry point.
 func Run(r *vk.Run) {
-	r.Rule = "not implemented yet"
+	world.Silence()
+	if os.Getenv("VERIF_C12_WRITE_GOLDEN") == "1" {
+		os.Exit(writeGolden())
+	}
+	ctx := context.Background()
+	r.Rule = "structured values: every wire type (Header, SignedHeader, Data, SignedData, Metadata, State, batch-cursor list) drawn by structural generators (nil vs empty byte strings and lists, 0/boundary/max integers, 0-300 txs of 0-70000 bytes, ed25519/secp256k1/RSA/ECDSA signers, harness-signed and unsigned), each sent through every path (MarshalBinary/P2P, DA blob, block store on MemDS, gob cache files, State via store, batch codec via store metadata) - all non-trivial, distinct by type + sha256 of the reference encoding; commitment cases distinct by the tx list; decoder inputs: enumerated 1-/2-byte strings, random bytes, random protobuf-framed field streams and 1-3 stacked mutations (bit flips, truncations, slice deletion, garbage/valid-encoding appended or inserted, length-varint edits incl. absurd and non-minimal, field reorder/duplicate/delete, varint value edits, foreign/mistyped fields, tag edits, the same inside nested messages, 4-byte length edits of batch encodings, mutated gob cache files) of reference encodings - non-trivial unless empty or byte-identical to a valid encoding, distinct by sha256 of the input"
+	r.Assume("the datastore under the block store is the in-memory MemDS double")
+	r.Assume("libp2p key (un)marshalling, encoding/gob, google.golang.org/protobuf and crypto/sha256 are trusted; the reference encoder is hand-written from proto/evnode/v1/*.proto")
+	r.Assume("custom signature payload providers are not varied (default: signature over the header's protobuf encoding)")
+	r.Assume("strings are valid UTF-8 (proto3 string fields cannot carry anything else; see observation_invalid_utf8)")
+
+	nCases := r.N(9000, 400000)
+	nCommit := r.N(1500, 60000)
+	nFinding := r.N(200, 4000)
+	nInputs := r.N(21000, 2600000)
+
+	r.Require("roundtrip", int64(nCases))
+	r.Require("same-hash", int64(nCases/2))
+	r.Require("same-commitment", int64(nCases/4))
+	r.Require("signature", int64(nCases/10))
+	r.Require("ref-bytes", int64(nCases/2))
+	r.Require("ref-hash", int64(nCases/4))
+	r.Require("golden-bytes", 60)
+	r.Require("golden-hash", 30)
+	r.Require("golden-decode", 60)
+	r.Require("golden-reference", 60)
+	r.Require("golden-cachefile", 2)
+	r.Require("commit-metadata-independent", int64(nCommit))
+	r.Require("commit-order-sensitive", int64(nCommit/2))
+	r.Require("commit-split-sensitive", int64(nCommit))
+	r.Require("total-rejected-cleanly", int64(nInputs))
+	r.Require("total-fixpoint", int64(nInputs/20))
+	r.Require("total-survived", int64(nInputs))
+
+	checkGolden(ctx, r)
+	observeInvalidUTF8(r)
+	roundTrips(ctx, r, nCases)
+	commitments(r, nCommit)
+	totality(ctx, r, nInputs)
+	// last, so that its reports never crowd out violations of the clean regions
+	findingRegion(ctx, r, nFinding)
+}
+
+// observeInvalidUTF8 records (without a verdict) what happens to a chain id that is not valid
+// UTF-8: proto3 refuses to encode it, so such a value has no encoding at all.
+func observeInvalidUTF8(r *vk.Run) {
+	defer func() {
+		if p := recover(); p != nil {
+			violation(r, "no-panic", fmt.Sprintf("panic while encoding a header with a non-UTF-8 chain id: %v", p), nil)
+		}
+	}()
+	h := HeaderSpec{ChainID: "\xff\xfe", Height: 1}.Real()
+	_, err := h.MarshalBinary()
+	d1 := DataSpec{Meta: &MetadataSpec{ChainID: "\xff", Height: 1}, Txs: [][]byte{[]byte("a")}}.Real()
+	d2 := DataSpec{Meta: &MetadataSpec{ChainID: "\xfe", Height: 2}, Txs: [][]byte{[]byte("b")}}.Real()
+	r.Set("observation_invalid_utf8", map[string]any{
+		"header_marshal_error":              fmt.Sprint(err),
+		"header_hash_is_nil":                h.Hash() == nil,
+		"two_different_data_share_one_hash": bytes.Equal(d1.Hash(), d2.Hash()),
+		"commitments_still_differ":          !bytes.Equal(d1.DACommitment(), d2.DACommitment()),
+		"note":                              "outside the quantifier (not a wire value: it cannot be encoded); recorded only",
+	})
+}
+
+// ---------- clause (c): parent side ----------
+
+type shardPlan struct {
+	Index int
+	Seed  int64
+	N     int
+}
+
+func totality(ctx context.Context, r *vk.Run, nInputs int) {
+	nShards := r.N(32, 256)
+	rng := r.Rand("decoder-shards")
+	plans := make([]shardPlan, nShards)
+	per := nInputs / nShards
+	for i := range plans {
+		plans[i] = shardPlan{Index: i, Seed: rng.Int63(), N: per}
+	}
+	plans[nShards-1].N += nInputs - per*nShards
+	base := world.TempDir(vk.Root(), "C12-total-*")
+	defer os.RemoveAll(base)
+
+	var mu sync.Mutex
+	accepted, rejected, classes := map[string]int64{}, map[string]int64{}, map[string]int64{}
+	sampleQ := []childSample{}
+
+	work := make(chan shardPlan)
+	var wg sync.WaitGroup
+	for w := 0; w < 16; w++ {
+		wg.Add(1)
+		go func() {
+			defer wg.Done()
+			for p := range work {
+				runShard(ctx, r, p, nShards, base, func(rep childReport) {
+					mu.Lock()
+					for k, v := range rep.Accepted {
+						accepted[k] += v
+					}
+					for k, v := range rep.Rejected {
+						rejected[k] += v
+					}
+					for k, v := range rep.Mutations {
+						classes[k] += v
+					}
+					if len(sampleQ) < 64 {
+						sampleQ = append(sampleQ, rep.Samples...)
+					}
+					mu.Unlock()
+				})
+			}
+		}()
+	}
+	for _, p := range plans {
+		work <- p
+	}
+	close(work)
+	wg.Wait()
+
+	sort.Slice(sampleQ, func(a, b int) bool { // accepted inputs first, then by class: a stable, varied pick
+		if (len(sampleQ[a].Accepted) > 0) != (len(sampleQ[b].Accepted) > 0) {
+			return len(sampleQ[a].Accepted) > 0
+		}
+		return sampleQ[a].Mut+sampleQ[a].Input < sampleQ[b].Mut+sampleQ[b].Input
+	})
+	for i := 0; i < len(sampleQ) && i < 3; i++ {
+		r.Sample(map[string]any{"type": "decoder-input", "input": sampleQ[i]})
+	}
+	// keys -> distinct counting (in shard order, so the result is a function of the seed)
+	for _, p := range plans {
+		kb, err := os.ReadFile(filepath.Join(base, fmt.Sprintf("shard-%03d", p.Index), "keys"))
+		if err != nil {
+			continue
+		}
+		for off := 0; off+13 <= len(kb); off += 13 {
+			r.Eval("in:"+hex.EncodeToString(kb[off:off+12]), kb[off+12] == 1, nil)
+		}
+	}
+	var accTotal, rejTotal int64
+	for _, v := range accepted {
+		accTotal += v
+	}
+	for _, v := range rejected {
+		rejTotal += v
+	}
+	r.HitN("total-fixpoint", accTotal)
+	r.HitN("total-rejected-cleanly", rejTotal)
+	r.HitN("total-survived", accTotal+rejTotal)
+	r.Set("decoder_accepted", accepted)
+	r.Set("decoder_rejected", rejected)
+	r.Set("decoder_input_classes", classes)
+}
+
+// runShard runs one shard in a child process, restarting it behind every input that killed it.
+func runShard(ctx context.Context, r *vk.Run, p shardPlan, nShards int, base string, merge func(childReport)) {
+	dir := filepath.Join(base, fmt.Sprintf("shard-%03d", p.Index))
+	if err := os.MkdirAll(dir, 0o755); err != nil {
+		r.Inconclusive("cannot create shard directory: " + err.Error())
+		return
+	}
+	startAt := 0
+	deaths := 0
+	for startAt < p.N {
+		_ = os.Remove(filepath.Join(dir, "report.json"))
+		_ = os.Remove(filepath.Join(dir, "journal"))
+		cctx, cancel := context.WithTimeout(ctx, 20*time.Minute)
+		cmd := exec.CommandContext(cctx, vk.SelfExe(), "child", "c12-decoders",
+			strconv.FormatInt(p.Seed, 10), strconv.Itoa(p.Index), strconv.Itoa(nShards), strconv.Itoa(p.N), strconv.Itoa(startAt), r.Tier, dir)
+		errPath := filepath.Join(dir, fmt.Sprintf("stderr-%d.txt", deaths))
+		ef, _ := os.Create(errPath)
+		cmd.Stdout, cmd.Stderr = ef, ef
+		err := cmd.Run()
+		timedOut := cctx.Err() != nil
+		cancel()
+		if ef != nil {
+			ef.Close()
+		}
+		var rep childReport
+		if b, e := os.ReadFile(filepath.Join(dir, "report.json")); e == nil {
+			_ = json.Unmarshal(b, &rep)
+		}
+		merge(rep)
+		for _, pr := range rep.Problems {
+			violation(r, "total-fixpoint", fmt.Sprintf("decoder %s accepted an input but %s (input derived from %s by %s)", pr.Decoder, pr.Detail, pr.Class, pr.Mut),
+				map[string]any{"shard": p, "problem": pr, "replay": "feed input_hex to the named decoder"})
+		}
+		if err == nil {
+			return
+		}
+		if timedOut {
+			r.Inconclusive(fmt.Sprintf("decoder shard %d: watchdog (20 min) fired", p.Index))
+			return
+		}
+		tail := tailFile(errPath, 6000)
+		code := -1
+		if ee, ok := err.(*exec.ExitError); ok {
+			code = ee.ExitCode()
+		}
+		jr, jerr := readJournal(filepath.Join(dir, "journal"))
+		if code == 7 || jerr != nil || jr.Index < 0 {
+			r.Inconclusive(fmt.Sprintf("decoder shard %d: child failed outside the code under test (exit %d): %s", p.Index, code, firstLine(tail)))
+			return
+		}
+		if jr.Phase == 0 {
+			r.Inconclusive(fmt.Sprintf("decoder shard %d: child died in harness code at input %d (exit %d): %s", p.Index, jr.Index, code, firstLine(tail)))
+		} else {
+			name := decoderNames[jr.Phase]
+			if name == "" {
+				name = fmt.Sprintf("decoder #%d", jr.Phase)
+				for _, d := range buildDecoders(ctx, &storeKeys{}) {
+					if d.ID == jr.Phase {
+						name = d.Name
+					}
+				}
+			}
+			violation(r, "total-no-crash", fmt.Sprintf("the process died (exit %d) while %s was working on an input of %d bytes: %s", code, name, len(jr.Input), firstLine(tail)),
+				map[string]any{"shard": p, "input_index": jr.Index, "decoder": name, "input_hex": hex.EncodeToString(jr.Input), "stderr_tail": tail})
+		}
+		deaths++
+		if deaths > 25 {
+			r.Inconclusive(fmt.Sprintf("decoder shard %d: gave up after %d child deaths", p.Index, deaths))
+			return
+		}
+		startAt = jr.Index + 1
+	}
+}
+
+func tailFile(path string, n int) string {
+	b, err := os.ReadFile(path)
+	if err != nil {
+		return ""
+	}
+	if len(b) > n {
+		// keep the head (the panic message) and some of the stack
+		return string(b[:n])
+	}
+	return string(b)
+}
+
+func firstLine(s string) string {
+	for i := 0; i < len(s); i++ {
+		if s[i] == '\n' {
+			if i > 300 {
+				return s[:300]
+			}
+			return s[:i]
+		}
+	}
+	if len(s) > 300 {
+		return s[:300]
+	}
+	return s
+}
+
+// violation reports at most three violations per clause (the kit lists twenty in all), so that a
+// defect that trips one clause thousands of times cannot hide what the other clauses see.
+var (
+	violMu    sync.Mutex
+	violCount = map[string]int{}
+)
+
+func violation(r *vk.Run, clause, detail string, witness any) {
+	violMu.Lock()
+	violCount[clause]++
+	n := violCount[clause]
+	violMu.Unlock()
+	if n > 3 {
+		r.Count("violations_not_listed:"+clause, 1)
+		return
+	}
+	r.Violation(clause, detail, witness)
 }
